@@ -33,6 +33,7 @@ func runC08(c *mon.Ctx) {
 			c08BlockedPass(c, r.Fork(11))
 		}
 		c08MultiCloser(c, r.Fork(12))
+		c08PanickingReporter(c, r.Fork(13))
 	})
 }
 
@@ -923,5 +924,64 @@ func c08MultiCloser(c *mon.Ctx, r *mon.Rand) {
 		c.Class("shutdowns-over-a-closable-multi-reporter", 1)
 	} else {
 		c.Class("shutdowns-over-a-multi-reporter-that-is-not-closable(children stay open)", 1)
+	}
+}
+
+// c08PanickingReporter: the reporter panics in the final flush and the caller
+// of Close recovers. Close calls made afterwards still return, and so does a
+// report pass.
+func c08PanickingReporter(c *mon.Ctx, r *mon.Rand) {
+	cached := r.Bool()
+	// (in the flush, not in a report call: a reporter that panics while the
+	// registry is being walked deadlocks the pinned tree as well - the deferred
+	// purge asks for the write lock of the shard whose read lock the walk still
+	// holds; DESIGN.md section 5, examined)
+	panicOn := mon.EvFlush
+	var rec *mon.Recorder
+	opts := tally.ScopeOptions{OmitCardinalityMetrics: true}
+	if cached {
+		cr := mon.NewCachedRec(false)
+		rec, opts.CachedReporter = cr.Recorder, cr
+	} else {
+		pr := mon.NewPlainRec(false)
+		rec, opts.Reporter = pr.Recorder, pr
+	}
+	var armed int32
+	rec.Delay = func(k mon.EvKind) {
+		if k == panicOn && atomic.CompareAndSwapInt32(&armed, 1, 0) {
+			panic("reporter panics")
+		}
+	}
+	interval := time.Duration(0)
+	if r.Bool() {
+		interval = time.Hour // a report loop that never ticks on its own
+	}
+	desc := map[string]interface{}{"cached": cached, "reporter_panics_in": panicOn.String(), "with_report_loop": interval > 0}
+	root, closer := vNewRoot(opts, interval, uint(r.Range(0, 2)))
+	root.Counter("c").Inc(1)
+	root.SubScope("s").Counter("c").Inc(1)
+	atomic.StoreInt32(&armed, 1)
+	panicked := false
+	func() {
+		defer func() {
+			if recover() != nil {
+				panicked = true
+			}
+		}()
+		closer.Close()
+	}()
+	stop := c.Watchdog(90*time.Second, "close-after-a-recovered-reporter-panic-does-not-return", desc)
+	defer stop()
+	done := make(chan struct{})
+	go func() {
+		defer close(done)
+		defer func() { recover() }()
+		closer.Close()
+		closer.Close()
+		tally.VerifReportPass(root)
+	}()
+	<-done
+	if panicked {
+		c.Class("shutdowns-with-a-recovered-reporter-panic", 1)
 	}
 }
